@@ -144,6 +144,10 @@ pub struct RunCfg {
     /// Drop the call future / the stream after this many actions (abnormal end).
     #[serde(default)]
     pub abort_after: Option<usize>,
+    /// Functions whose user future completes on its first poll (after its
+    /// yields) without waiting for a release.
+    #[serde(default)]
+    pub instant: Vec<usize>,
 }
 
 impl RunCfg {
@@ -161,6 +165,9 @@ pub struct Profile {
     pub pct_wide: usize,
     /// Percentage of medium graphs (9..=max_n).
     pub pct_medium: usize,
+    /// Per-mille of huge graphs (257..=320 functions, fan-in / fan-out shapes:
+    /// more predecessors / successors than fit in a byte).
+    pub permille_huge: usize,
     /// Weighted API list.
     pub apis: Vec<(Api, usize)>,
     /// Are interrupt strategies generated (only meaningful in the intr build)?
@@ -188,6 +195,7 @@ impl Profile {
             max_n,
             pct_wide: 3,
             pct_medium: 17,
+            permille_huge: 2,
             apis: Vec::new(),
             interrupts: true,
             only_effective_strats: false,
@@ -236,17 +244,22 @@ pub fn size_class(n: usize) -> &'static str {
         0 => "n=0",
         1..=8 => "n=1..8",
         9..=40 => "n=9..40",
-        _ => "n=wide(65..140)",
+        41..=256 => "n=wide(65..140)",
+        _ => "n=huge(257..320)",
     }
 }
 
 /// Decode an acyclic graph spec (run-time properties): edges only go forward in
 /// a hidden random permutation, so nothing is filtered.
 pub fn decode_spec(t: &mut Tape, p: &Profile) -> GraphSpec {
-    let class = t.below(100);
-    let wide = class >= 100 - p.pct_wide;
+    let class1000 = t.below(1000);
+    let huge = class1000 >= 1000 - p.permille_huge;
+    let class = class1000 / 10;
+    let wide = huge || class >= 100 - p.pct_wide;
     let medium = !wide && class >= 100 - p.pct_wide - p.pct_medium;
-    let n = if wide {
+    let n = if huge {
+        257 + t.below(64)
+    } else if wide {
         65 + t.below(76)
     } else if medium {
         9 + t.below(p.max_n.saturating_sub(8).max(1))
@@ -293,7 +306,7 @@ pub fn decode_spec(t: &mut Tape, p: &Profile) -> GraphSpec {
     }
     let mut edges: Vec<(usize, usize, Kind)> = Vec::new();
     if n >= 2 {
-        let variant = if wide { t.below(4) } else { 0 };
+        let variant = if huge { 1 + t.below(2) } else if wide { t.below(4) } else { 0 };
         if wide && variant == 1 {
             // fan-out: one hub before everyone (second layer of n-1 functions becomes ready at once)
             let hub = t.below(n);
@@ -410,6 +423,11 @@ pub fn decode_cfg(t: &mut Tape, p: &Profile, n: usize, intr: bool) -> RunCfg {
     } else {
         None
     };
+    let instant: Vec<usize> = match t.below(4) {
+        0 | 1 => vec![],
+        2 => (0..n).collect(),
+        _ => (0..n).filter(|_| t.chance(1, 2)).collect(),
+    };
     if !api.with {
         rev = false;
         strat = Strat::NonInterruptible;
@@ -428,5 +446,6 @@ pub fn decode_cfg(t: &mut Tape, p: &Profile, n: usize, intr: bool) -> RunCfg {
         failing,
         yields,
         abort_after,
+        instant: if api.shape.is_stream() { vec![] } else { instant },
     }
 }
